@@ -47,7 +47,7 @@ class Fault(Exception):
     pass
 
 
-def session(year, forms, path, answer_fn, fault=None):
+def session(year, forms, path, answer_fn, fault=None, extra_args=(), on_prompt=None):
     """Run one interactive CLI session.  fault = (kind, k).  Returns
     (cli result, [(name, text) answers given in order])."""
     from hv import cli, hx
@@ -55,6 +55,8 @@ def session(year, forms, path, answer_fn, fault=None):
     state = {'n': 0, 'cur': None, 'pending_invalid': False}
 
     def inp(prompt):
+        if on_prompt is not None:
+            on_prompt(prompt)
         m = BANNER.search(prompt)
         if m:
             state['cur'] = m.group(1)
@@ -78,6 +80,7 @@ def session(year, forms, path, answer_fn, fault=None):
     args = ['solve', path, '--year', str(year), '--prompt-missing', '--writeback-input']
     for f in forms:
         args += ['--form', f]
+    args += list(extra_args)
     r = cli.run_cli(args, input_fn=inp)
     r.n_prompts = state['n']
     return r, given
